@@ -330,6 +330,11 @@ def decIsZero (d : Dec) : Bool :=
 /-- `d.get(k)`: None when absent -/
 def dictGetOpt {β} (d : SDict β) (k : Text) : Option β := (d.find? (·.1 == k)).map (·.2)
 
+/-- `d[k]` where `k` is the result of another dictionary's `.get()`: None is no key of a string-keyed dict -/
+def dictGetO {β} (d : SDict β) : Option Text → Outcome β
+  | none => .escape .keyError
+  | some k => dictGet d k
+
 /-- truthiness of `d.get(k)`: None, '', b'', 0 and Decimal zero are false -/
 def truthyOpt : Option AnyVal → Bool
   | none => false
